@@ -66,7 +66,7 @@ func CheckC01Epochs(sc Scenario, rec *Rec) error {
 }
 
 func TestC01Epochs(t *testing.T) {
-	runProp(t, "C01", "epochs", 250, 5000, genScenario(ScenarioCfg{MaxEpochs: pick(15, 40), Parallel: 1, Structural: true}), CheckC01Epochs)
+	runProp(t, "C01", "epochs", 250, 5000, genScenario(ScenarioCfg{MaxEpochs: pick(15, 40), Parallel: 1, Structural: true, Warm: true, Retry: true}), CheckC01Epochs)
 }
 
 // (e) modular genomes: duplication and expression only
